@@ -77,6 +77,23 @@ def run(ctx):
     regions, _ = M.variant_regions(bic, CORE + "functions::BuiltInFunction", root_param=1)
     BA = M.BuiltinArms(core, cg)
     n_imp = 0
+    rev = {}
+    for a_, bs_ in cg.out.items():
+        for b_ in bs_:
+            rev.setdefault(b_, set()).add(a_)
+
+    def owner(fname, depth=0):
+        """a private helper that only one function (of the same impl / module) calls belongs to that function: its effects are that
+        function's effects (`FunctionDef::record_call`, split out of `FunctionDef::call`)"""
+        if depth > 3:
+            return fname
+        cs = {c for c in rev.get(fname, ()) if c != fname and "::tests::" not in c}
+        hf = core.hir.get(fname)
+        if len(cs) == 1 and hf is not None and hf.get("vis") != "pub":
+            c = next(iter(cs))
+            if c.rsplit("::", 1)[0] == fname.rsplit("::", 1)[0]:
+                return owner(c, depth + 1)
+        return fname
     for n in local:
         f = cg.fns[n]
         for bi, b in enumerate(f["blocks"]):
@@ -86,7 +103,7 @@ def run(ctx):
                 if r.startswith(IMPURE_PREFIX):
                     n_imp += 1
                     arm = BA.arm(n, bi)
-                    cn_ = BA.canonical(n)
+                    cn_ = BA.canonical(owner(n))
                     ok, why = False, "not in the allowed list"
                     for pat, fn_, arm_, reason in ALLOWED_IMPURE:
                         if re.match(pat, r) and cn_ == fn_ and (arm_ is None or arm == [arm_]):
@@ -98,7 +115,7 @@ def run(ctx):
                 if s["k"] == "assign":
                     for m_ in re.findall(r"'static': '([^']+)'", str(s["rv"])):
                         n_imp += 1
-                        ok = (m_, n) in ALLOWED_STATICS or (m_, None) in ALLOWED_STATICS
+                        ok = (m_, n) in ALLOWED_STATICS or (m_, None) in ALLOWED_STATICS or (m_, owner(n)) in ALLOWED_STATICS
                         why_st = None
                         if not ok:
                             # any other static of the workspace that cannot change after initialisation: not `static mut`, no interior mutability
@@ -125,7 +142,7 @@ def run(ctx):
         ty = st.get("ty", "")
         if any(x in ty for x in ("Mutex", "RefCell", "Atomic", "Cell<", "RwLock")):
             used_by = sorted(n for n in local for b in cg.fns[n]["blocks"] for s in b["s"] if s["k"] == "assign" and sname in str(s["rv"]))
-            ok = all((sname, u) in ALLOWED_STATICS for u in used_by)
+            ok = all((sname, u) in ALLOWED_STATICS or (sname, owner(u)) in ALLOWED_STATICS for u in used_by)
             ctx.inst("C02.R1", "mutable-static:%s" % sname.replace(CORE, ""), ok, "type %s; used from evaluator-reachable functions %s" % (ty, used_by), H.loc(st))
 
     run_identity(ctx, cg, local, crates)
